@@ -457,6 +457,13 @@ def generate(tier, seed):
     yield "multimerge", {"tables": base, "on": "index"}, True
     yield "multimerge", {"tables": base, "on": "index", "suffixes": ["s1", "s2"]}, True
     yield "multimerge", {"tables": base, "on": "k", "how": "inner"}, True
+    # a key value repeated within a table (one-to-many joins), with and without suffixes
+    dupk = [{"name": "a", "cols": ["x"], "rows": [["k1", 1], ["k2", 2], ["k2", 3]]}, {"name": "b", "cols": ["y"], "rows": [["k2", 4], ["k3", 5], ["k2", 6]]},
+            {"name": "c", "cols": ["z"], "rows": [["k2", 7], ["k1", 8]]}]
+    for on in ("k", "index"):
+        for suf in (None, ["s1", "s2", "s3"]):
+            yield "multimerge", {"tables": dupk, "on": on, "suffixes": suf}, True
+            yield "multimerge", {"tables": dupk[:2], "on": on, "suffixes": suf and suf[:2]}, True
     # key columns with falsy labels (the column named 0 of header-less tables, the empty string)
     for on in (0, ""):
         yield "multimerge", {"tables": base, "on": on}, True
